@@ -215,6 +215,9 @@ func c02Ops(c *core.Ctx, s fScenario) {
 		k = 8
 	}
 	runForest(c, s, func(site, clause, trigger, detail string) { c.Violate(site, "setup:"+clause, trigger, detail) }, func(st *fState) {
+		if st.Quiet {
+			return
+		}
 		c.Count("states_after_"+st.Op.Kind, 1)
 		c02CheckState(c, st.W, st.F, st.When, k)
 	})
